@@ -152,7 +152,12 @@ enum Inst {
     Bool(bool),
 }
 
-const SLOT: u64 = 16;
+/// extent of one function in the current scenario (`SimScenario::pitch`)
+static SLOT_LEN: std::sync::atomic::AtomicU64 = std::sync::atomic::AtomicU64::new(16);
+#[allow(non_snake_case)]
+fn SLOT_() -> u64 {
+    SLOT_LEN.load(std::sync::atomic::Ordering::Relaxed)
+}
 
 struct Checker<'a> {
     sc: &'a SimScenario,
@@ -180,7 +185,7 @@ struct Checker<'a> {
 
 fn slot_of(entry: u64) -> (u64, u64) {
     let e = entry & !1;
-    (e, e + SLOT)
+    (e, e + SLOT_())
 }
 
 impl<'a> Checker<'a> {
@@ -270,8 +275,8 @@ impl<'a> Checker<'a> {
             let mut patched: Vec<(u64, u64)> = Vec::new();
             for t in sc.targets.iter().chain(sc.bystanders.iter()) {
                 let (s, e) = slot_of(*t);
-                let cur = w.peek(s, SLOT as usize).unwrap_or_default();
-                if cur != self.pristine_bytes(s, SLOT as usize) {
+                let cur = w.peek(s, SLOT_() as usize).unwrap_or_default();
+                if cur != self.pristine_bytes(s, SLOT_() as usize) {
                     patched.push((s, e));
                 }
             }
@@ -461,9 +466,10 @@ impl<'a> Checker<'a> {
                     if own & 1 != 0 {
                         let inside = slots.iter().any(|(s, e)| *addr >= *s && end <= *e);
                         if !inside {
+                            let wprops: &[&'static str] = if self.cur_boolean { &["C03", "C10"] } else { &["C03"] };
                             self.viol(
                                 "write-outside-entry-slot",
-                                &["C03"],
+                                wprops,
                                 format!("{what}: wrote [{:#x},{:#x}) in program text; allowed entry slots: {:x?}", addr, end, slots),
                             );
                         }
@@ -538,7 +544,7 @@ impl<'a> Checker<'a> {
         let arch = self.arch;
         let targets = self.sc.targets.clone();
         let bystanders = self.sc.bystanders.clone();
-        let pristine: Vec<Vec<u8>> = targets.iter().chain(bystanders.iter()).map(|t| self.pristine_bytes(slot_of(*t).0, SLOT as usize)).collect();
+        let pristine: Vec<Vec<u8>> = targets.iter().chain(bystanders.iter()).map(|t| self.pristine_bytes(slot_of(*t).0, SLOT_() as usize)).collect();
         let findings = self.obs_findings.clone();
         let count = self.obs_count.clone();
         Box::new(move |w: &World, point: &'static str| {
@@ -546,14 +552,14 @@ impl<'a> Checker<'a> {
             let mut patched: Vec<(u64, u64)> = Vec::new();
             for (i, t) in targets.iter().chain(bystanders.iter()).enumerate() {
                 let (s0, e0) = slot_of(*t);
-                if w.peek(s0, SLOT as usize).unwrap_or_default() != pristine[i] {
+                if w.peek(s0, SLOT_() as usize).unwrap_or_default() != pristine[i] {
                     patched.push((s0, e0));
                 }
             }
             for (bi, b) in bystanders.iter().enumerate() {
                 // a thread running an un-named neighbour must be able to fetch its code right now
                 let (s0, _) = slot_of(*b);
-                let exec_ok = (0..SLOT).all(|i| w.prot_at(s0 + i).map(|p| p & PROT_X != 0).unwrap_or(false));
+                let exec_ok = (0..SLOT_()).all(|i| w.prot_at(s0 + i).map(|p| p & PROT_X != 0).unwrap_or(false));
                 if !exec_ok && findings.borrow().len() < 4 {
                     findings.borrow_mut().push(format!("at the {point} boundary the un-named neighbour #{bi} at {:#x} is not executable (a thread running it would fault) [bystander]", b));
                 }
@@ -623,7 +629,7 @@ impl<'a> Hooks for Checker<'a> {
         with_world(|w| w.mark((self.lifetime as u32) << 16 | i as u32));
         self.ev_mark = with_world(|w| w.events.len());
         self.regions_before = with_world(|w| w.injector_regions());
-        self.slot_before = with_world(|w| w.peek(s, SLOT as usize).unwrap());
+        self.slot_before = with_world(|w| w.peek(s, SLOT_() as usize).unwrap());
         self.mprotect_faults_before = with_world(|w| w.counters.mprotect_injected_fail);
         // another thread calls every function at each OS-call boundary of this installation
         let mut allowed: Vec<Vec<Dest>> = Vec::new();
@@ -661,14 +667,14 @@ impl<'a> Hooks for Checker<'a> {
             if sc.policy.fail_mprotect.contains(&(ord + 1000)) && target_unfaked {
                 let ps = w.page_size;
                 let lo = s & !(ps - 1);
-                w.policy.mprotect_deny.push((lo, (s + SLOT + ps - 1) & !(ps - 1)));
+                w.policy.mprotect_deny.push((lo, (s + SLOT_() + ps - 1) & !(ps - 1)));
             }
             // ordinal + 2000: only the SECOND page under the entry slot can never be made writable
             // (matters for entries that straddle a page boundary)
             if sc.policy.fail_mprotect.contains(&(ord + 2000)) && target_unfaked {
                 let ps = w.page_size;
                 let second = (s & !(ps - 1)) + ps;
-                if second < s + SLOT {
+                if second < s + SLOT_() {
                     w.policy.mprotect_deny.push((second, second + ps));
                 }
             }
@@ -772,7 +778,7 @@ impl<'a> Hooks for Checker<'a> {
                     self.probe("scan_exhausted");
                 }
                 // a refused installation leaves the function untouched and gives everything back
-                let slot_now = with_world(|w| w.peek(s, SLOT as usize).unwrap());
+                let slot_now = with_world(|w| w.peek(s, SLOT_() as usize).unwrap());
                 if slot_now != self.slot_before {
                     // a function left half-patched is also a wrong decode for the arch-specific properties
                     let fprops: &[&'static str] = match self.arch {
@@ -901,9 +907,20 @@ pub fn validate(sc: &SimScenario) -> Result<(), String> {
     if !ps.is_power_of_two() || ps < 0x1000 {
         return Err("page size".into());
     }
+    let (arch, _) = variant_arch_os(&sc.variant);
+    if sc.pitch < crate::scenario::tight_pitch(arch) || sc.pitch > 16 {
+        return Err("pitch".into());
+    }
+    if arch == Arch::X86_64 && sc.pitch < 12 {
+        // below 12 bytes only the 5-byte entry form fits: see scenario::tight_pitch
+        if sc.targets.iter().any(|t| t % 8 != 0 || t % 0x10000 == 0) {
+            return Err("tight x86-64 entries must be 8-byte aligned and off the allocation granule".into());
+        }
+    }
+    SLOT_LEN.store(sc.pitch, std::sync::atomic::Ordering::Relaxed);
     let in_text = |a: u64, n: u64| sc.text.iter().any(|t| a >= t.addr && a + n <= t.addr + t.pages * ps);
     for t in sc.targets.iter().chain(sc.bystanders.iter()) {
-        if !in_text(t & !1, SLOT) {
+        if !in_text(t & !1, SLOT_()) {
             return Err(format!("function {t:#x} outside text"));
         }
     }
@@ -915,7 +932,7 @@ pub fn validate(sc: &SimScenario) -> Result<(), String> {
     let all: Vec<u64> = sc.targets.iter().chain(sc.bystanders.iter()).map(|t| t & !1).collect();
     for (i, a) in all.iter().enumerate() {
         for b in &all[i + 1..] {
-            if (*a as i128 - *b as i128).abs() < SLOT as i128 {
+            if (*a as i128 - *b as i128).abs() < SLOT_() as i128 {
                 return Err(format!("function slots overlap: {a:#x} {b:#x}"));
             }
         }
